@@ -331,10 +331,10 @@ def ugrid_dataset(mesh, dialect):
     return ds
 
 
-def vertices_array(mesh, xyz=False):
+def vertices_array(mesh, xyz=False, scale=1.0):
     w = mesh.n_max
     if xyz:
-        p = mesh.xyz()
+        p = mesh.xyz() * float(scale)
         out = np.full((mesh.n_face, w, 3), float(M.FILL))
         for i, f in enumerate(mesh.faces):
             out[i, : len(f)] = p[f]
@@ -372,7 +372,7 @@ def open_source(spec, scratch=None):
             inputs = kw
             g = ux.open_grid(kw)
         elif prov in ("vertices", "vertices_xyz"):
-            arr = vertices_array(mesh, xyz=(prov == "vertices_xyz"))
+            arr = vertices_array(mesh, xyz=(prov == "vertices_xyz"), scale=(dialect.get("xyz_scale", 1.0) if prov == "vertices_xyz" else 1.0))
             inputs = {"face_vertices": arr}
             g = ux.Grid.from_face_vertices(arr, latlon=(prov == "vertices"))
         elif prov == "ugrid_mem":
